@@ -6,17 +6,16 @@ from lxml import etree
 from harness.core import Result
 from harness import xmlcanon
 
-LEAN_MODULES = ["ZeepProofs.C06"]
+LEAN_MODULES = ["ZeepProofs.C06", "ZeepProofs.C06Flow"]
 NS = "Zeep.Soap."
 THEOREMS = [NS + t for t in (
     "c06_success_only", "c06_none_only", "c06_fault_raised_11", "c06_fault_raised_12", "c06_other_version_fault",
     "c06_fields_11", "c06_fields_12", "c06_subcodes_chain", "c06_other_errors_carry_status_partial",
-    "c06_unknown_fault_counterexample", "c06_error_status_never_success",
-)]
+    "c06_unknown_fault_counterexample", "c06_error_status_never_success", "triage_empty_ok", "c06_status_constants_match_source")]
 LEVEL = "proof"
 MANIFEST = dict(
     engine="E: lean/ZeepModel/Soap/Reply.lean",
-    technique="Lean 4 decision-logic theorems about the reply triage (for every status, body and tree) and fault field extraction as tree lookups + exhaustive status x body-class x content-type grid against scripted replies, strict and non-strict clients interleaved",
+    technique="Lean 4 decision-logic theorems about the reply triage (for every status, body and tree) and fault field extraction as tree lookups; an obligation, re-checked by `decide` against the table regenerated from process_reply on every run (translator soap_flow.py), that the status constants of the source are the model's (in (201, 202) for the empty reply, != 200 otherwise, no other comparison) + exhaustive status x body-class x content-type grid against scripted replies, strict and non-strict clients interleaved",
     text="c06_success_only / c06_none_only / c06_fault_raised_* / c06_error_status_never_success are proved for every status code and every reply tree of the model; field extraction is proved equal to first-child lookups. The model is tied to SoapBinding.process_reply by the full grid of the quantifier (2 versions x 12 statuses x body classes incl. every subset of optional fault fields, nested subcodes with prefixes declared at different levels, other-version faults, empty, non-XML, truncated, wrong root, multipart) through a scripted transport, each cell on a strict and a lenient client alternately.",
     note="Partial: `c06_other_errors_carry_status_partial` excludes the cell 'non-200 status, well-formed body without Fault' (known finding K3: Fault('Unknown fault occured') carries no status; counterexample theorem proved). Trusted: lxml parsing (the body class is decided by an lxml parse in the harness), requests.Response, requests-toolbelt MultipartDecoder.",
     design_ref="DESIGN.md section 6, C06",
